@@ -129,6 +129,11 @@ fn make_secret(class: u8, picks: &[u16]) -> (String, String) {
     (s, name.to_string())
 }
 
+/// (secret, alphabet label) for other groups of this check
+pub fn secret_pub() -> BoxedStrategy<(String, String)> {
+    secret_s()
+}
+
 fn secret_s() -> BoxedStrategy<(String, String)> {
     (
         prop_oneof![30 => Just(0u8), 14 => Just(1u8), 14 => Just(2u8), 12 => Just(3u8), 15 => Just(4u8), 15 => Just(5u8)],
